@@ -17,6 +17,19 @@ DoLin == \E t \in Threads : /\ pend[t].st = "called" /\ ALin(t)
 TrRet == /\ IsEvent("ret") /\ Consume /\ ARet(Ev.t, Ev.res, Ev.ok)
 (* message-passing litmus observation: the reader saw flag = 1, so it must see the data written before the flag *)
 TrMp == /\ IsEvent("mp") /\ Consume /\ (Ev.flag = 1 => Ev.data = Ev.expect) /\ UNCHANGED avars
-TNext == TrEpoch \/ TrCall \/ DoLin \/ TrRet \/ TrMp
+(* store-buffering litmus: thread 1 runs set(x,1); r1 = get(y), thread 2 runs set(y,1); r2 = get(x), both words 0 before, nothing
+   between the two calls of a thread (no event numbers are taken inside a round, they would act as fences).  The outcomes the
+   P-spec admits are those of the interleavings of the four indivisible steps that keep each thread's program order. *)
+SBProg == << << [c |-> "x", op |-> "set", a |-> <<1>>], [c |-> "y", op |-> "get", a |-> <<>>] >>,
+             << [c |-> "y", op |-> "set", a |-> <<1>>], [c |-> "x", op |-> "get", a |-> <<>>] >> >>
+SBOrders == { <<1,1,2,2>>, <<1,2,1,2>>, <<1,2,2,1>>, <<2,1,1,2>>, <<2,1,2,1>>, <<2,2,1,1>> }
+RECURSIVE SBRun(_, _, _, _, _)
+SBRun(order, i, mem, pc, r) ==
+  IF i > Len(order) THEN r
+  ELSE LET t == order[i]  ins == SBProg[t][pc[t]]  e == Effect(mem[ins.c], ins.op, ins.a, <<>>) IN
+       SBRun(order, i + 1, [mem EXCEPT ![ins.c] = e.nv], [pc EXCEPT ![t] = @ + 1], IF ins.op = "get" THEN [r EXCEPT ![t] = e.res[1]] ELSE r)
+SBOutcomes == { SBRun(o, 1, [x |-> <<0>>, y |-> <<0>>], <<1, 1>>, <<-1, -1>>) : o \in SBOrders }
+TrSb == /\ IsEvent("sb") /\ Consume /\ <<Ev.r1, Ev.r2>> \in SBOutcomes /\ UNCHANGED avars
+TNext == TrEpoch \/ TrCall \/ DoLin \/ TrRet \/ TrMp \/ TrSb
 TSpec == TInit /\ [][TNext]_tv
 ====
